@@ -1608,6 +1608,20 @@ def run_spox(op: Op, call, value_prop: bool = False, vs=None, keep_outputs: bool
                 res["has_value"] = [getattr(v, "_value") is not None for v in outs]
             except Exception as e:  # noqa: BLE001
                 res["obs_errors"].append(f"output values: {type(e).__name__}: {e}"[:200])
+            try:  # (internal, round 10) element type and shape of every attached ndarray value
+                facts = []
+                for v in outs:
+                    pv = getattr(v, "_value")
+                    arr = None if pv is None else pv.value
+                    if pv is None:
+                        facts.append(None)
+                    elif isinstance(arr, np.ndarray) and arr.dtype.kind not in "OUS" and np.dtype(arr.dtype) in ELEM_OF_NP:
+                        facts.append([int(ELEM_OF_NP[np.dtype(arr.dtype)]), [int(d) for d in arr.shape]])
+                    else:
+                        facts.append("other")
+                res["value_facts"] = facts
+            except Exception as e:  # noqa: BLE001
+                res["obs_errors"].append(f"output value facts: {type(e).__name__}: {e}"[:200])
         try:
             cls = node_class(op)
             if call.get("sub"):
@@ -1720,6 +1734,8 @@ def model_request(op: Op, call, sp: dict) -> Optional[dict]:
             else:
                 keys.append(f.name)
         req["values"] = [[k, "value"] for k, hv in zip(keys, sp["has_value"]) if hv]
+        if sp.get("value_facts") is not None:
+            req["value_facts"] = [[k, f[0], f[1]] for k, f in zip(keys, sp["value_facts"]) if isinstance(f, list)]
     return req
 
 
